@@ -82,6 +82,13 @@ Proof.
   apply need_spec in E; [|exact Hi]. rewrite uadd_some by lia.
   destruct (slice_val b i (i + n)) as [l [Hs _]]; [lia|exact E|]. rewrite Hs. constructor; lia.
 Qed.
+Lemma peek2_spec i : i <= L -> (exists v, peek2 c b i = Val v) \/ peek2 c b i = Err EIncomplete.
+Proof.
+  intros Hi. unfold peek2. destruct (need b i 2) eqn:E; [|right; reflexivity].
+  apply need_spec in E; [|exact Hi]. left.
+  destruct (get_some b i) as [x Hx]; [lia|]. rewrite Hx. rewrite uadd_some by lia.
+  destruct (get_some b (i + 1)) as [y Hy]; [lia|]. rewrite Hy. eauto.
+Qed.
 End Steps.
 
 Section Scalar.
@@ -115,7 +122,7 @@ Proof.
   destruct (major <=? 1).
   { pose proof (read_len_spec c b Hfit (idx s) info Hi) as H.
     destruct (read_len c b (idx s) info) as [[n i]| | |] eqn:E; inversion H; subst.
-    - cbv zeta. destruct (major =? 0); [|destruct (n <? two64 / 2)]; intros X; inversion X; subst.
+    - cbv zeta. destruct (major =? 0); [|destruct (n <? two64)]; intros X; inversion X; subst.
       all: (split; [apply sstep_setidx; lia|exact I]).
     - intros X; inversion X; subst. split; [exact Hrefl|exact I]. }
   destruct (major <=? 3).
@@ -137,6 +144,9 @@ Proof.
   repeat match goal with
   | |- (if ?x =? ?y then _ else _) = _ -> _ => destruct (x =? y)
   end; try (intros X; inversion X; subst; split; [exact Hrefl|exact I]);
+  try (match goal with |- context [peek2 c b (idx s)] =>
+         destruct (peek2_spec c b Hfit (idx s) Hi) as [[hv Ep]|Ep]; rewrite Ep end);
+  try (intros X; inversion X; subst; split; [exact Hrefl|exact I]);
   (match goal with |- context [read_fbits c b (idx s) ?k] =>
          pose proof (read_fbits_spec c b Hfit (idx s) k Hi) as H;
          destruct (read_fbits c b (idx s) k) as [[n i]| | |] eqn:E; inversion H; subst end);
